@@ -108,8 +108,8 @@ theorem iu2iu_inter_exact {rnd : Rat → Rat} {p32 : Nat} {o : OutT} {sh bm : In
     let inter := if sh.1 = 0 then floorExact p32 (mn - sh.1) else floorExact p32 (mn + (mx - mn + 1) / 2)
     mx - inter ≤ sh.2 →
       iu2iuInter rnd p32 o sh mn mx = .ok (1, (inter : Rat)) ∧
-      ∀ v : Int, mn ≤ v → v ≤ mx →
-        applyReadScaling 1 inter (scaleFin 1 inter mn mx bm.1 bm.2 v) = v := by
+      ∀ (conv : Int → Rat) (v : Int), mn ≤ v → v ≤ mx → conv v = (v : Rat) →
+        applyReadScaling 1 inter (scaleFin 1 inter mn mx bm.1 bm.2 (conv v)) = v := by
   intro inter htop
   have hlow : sh.1 ≤ mn - inter := by
     show sh.1 ≤ mn - (if sh.1 = 0 then floorExact p32 (mn - sh.1) else floorExact p32 (mn + (mx - mn + 1) / 2))
@@ -127,7 +127,8 @@ theorem iu2iu_inter_exact {rnd : Rat → Rat} {p32 : Nat} {o : OutT} {sh bm : In
     rw [if_pos hfit]
     show (if mx - inter ≤ sh.2 then _ else _) = _
     rw [if_pos htop]
-  · intro v h1 h2
+  · intro conv v h1 h2 hconv
+    rw [hconv]
     have hq1 : ((mn : Int) : Rat) ≤ ((v : Int) : Rat) := by exact_mod_cast h1
     have hq2 : ((v : Int) : Rat) ≤ ((mx : Int) : Rat) := by exact_mod_cast h2
     rw [scaleFin_eq (one_ne_zero) (by omega) hq1 hq2]
@@ -141,11 +142,12 @@ theorem iu2iu_flip_exact {w : Writer} {rnd : Rat → Rat} {o : OutT} {sh bm : In
     (hU : o.isU = true) (hmm : mn ≤ mx) (hneg : mx ≤ 0) (hfit : (mn.natAbs : Int) ≤ sh.2)
     (hbm1 : bm.1 ≤ 0) (hbm2 : sh.2 ≤ bm.2) :
     iu2iuSlope w rnd o sh mn mx = .ok (-1, 0) ∧
-    ∀ v : Int, mn ≤ v → v ≤ mx →
-      applyReadScaling (-1) 0 (scaleFin (-1) 0 mn mx bm.1 bm.2 v) = v := by
+    ∀ (conv : Int → Rat) (v : Int), mn ≤ v → v ≤ mx → conv v = (v : Rat) →
+      applyReadScaling (-1) 0 (scaleFin (-1) 0 mn mx bm.1 bm.2 (conv v)) = v := by
   constructor
   · unfold iu2iuSlope; rw [if_pos ⟨hU, hneg, hfit⟩]
-  · intro v h1 h2
+  · intro conv v h1 h2 hconv
+    rw [hconv]
     have hq1 : ((mn : Int) : Rat) ≤ ((v : Int) : Rat) := by exact_mod_cast h1
     have hq2 : ((v : Int) : Rat) ≤ ((mx : Int) : Rat) := by exact_mod_cast h2
     rw [scaleFin_eq (by norm_num) (by omega) hq1 hq2]
